@@ -408,15 +408,13 @@ theorem stepIter_linv {sh sh' : Shared} {t : Tid} {it it' : Iter}
     simp only [Option.some.injEq, Prod.mk.injEq] at h
     obtain ⟨rfl, rfl⟩ := h
     obtain ⟨⟨hy, hr, hn⟩, he⟩ := hl
-    have he' : sh.len = some sh.src.length := he
-    rw [he']
-    simp only []
+    have hcache := hs.exh_cache he
     split
     · rename_i hlt
-      unfold LInv; exact ⟨hc, ⟨hy, hr, hn⟩, he, hlt⟩
+      unfold LInv; exact ⟨hc, ⟨hy, hr, hn⟩, he, by rw [← hcache]; exact hlt⟩
     · rename_i hge
       apply LInv_finish_all hs _ he hc
-      rw [hy, List.take_of_length_le (by omega)]
+      rw [hy, List.take_of_length_le (by rw [← hcache]; omega)]
   · -- l148
     simp only [Option.some.injEq, Prod.mk.injEq] at h
     obtain ⟨rfl, rfl⟩ := h
